@@ -717,3 +717,56 @@ def monitor_c18(se, stats):
         if st["snap"] != ["WEDGED"]:
             prev = parse_snap(st["snap"])
     return viol
+
+
+def monitor_c13(se, stats):
+    """The frames each connection receives form a valid, uninterleaved sequence per channel: a content-bearing method is
+    followed on its channel by its header and exactly body-size bytes of body frames, nothing of that channel in between;
+    no channel above channel-max, no frame above frame-max, nothing after connection.close-ok / the socket close."""
+    viol = []
+    state = {}       # (conn, chan) -> ("idle",) | ("header",) | ("body", remaining)
+    dead = set()     # connections that sent close-ok or were closed
+    CHANNEL_MAX, FRAME_MAX = 2047, 65536
+    for i, st in enumerate(se["steps"]):
+        for (c, h, name, args, tail) in frames_of(st):
+            stats["frames"] = stats.get("frames", 0) + 1
+            if name == "GONE":
+                dead.add(c)
+                continue
+            if c in dead:
+                viol.append({"step": i, "what": "frame %s on connection %d after its close-ok / socket close (after `%s`)" % (name, c, st["op"])})
+                continue
+            if h > CHANNEL_MAX:
+                viol.append({"step": i, "what": "frame on channel %d above the negotiated channel-max %d" % (h, CHANNEL_MAX)})
+            cur = state.get((c, h), ("idle",))
+            if "TRUNCATED" in tail:
+                viol.append({"step": i, "what": "frame %s on %d.%d does not parse (truncated payload)" % (name, c, h)})
+            if name == "header":
+                if cur[0] != "header":
+                    viol.append({"step": i, "what": "content header on %d.%d without a content-bearing method before it (after `%s`)" % (c, h, st["op"])})
+                state[(c, h)] = ("body", int(args[1]))
+            elif name == "body":
+                n = int(args[1])
+                if n + 8 > FRAME_MAX:
+                    viol.append({"step": i, "what": "body frame of %d bytes exceeds frame-max" % n})
+                if cur[0] != "body" or n > cur[1] or n == 0 and cur[1] == 0:
+                    viol.append({"step": i, "what": "body frame of %d bytes on %d.%d outside a content block / beyond the announced size (state %s, after `%s`)" % (n, c, h, cur, st["op"])})
+                    state[(c, h)] = ("idle",)
+                else:
+                    state[(c, h)] = ("body", cur[1] - n)
+            else:
+                if cur[0] == "header" or (cur[0] == "body" and cur[1] != 0):
+                    viol.append({"step": i, "what": "frame %s on %d.%d interrupts a content block (%s, after `%s`)" % (name, c, h, cur, st["op"])})
+                if name in ("basic.deliver", "basic.get-ok", "basic.return"):
+                    state[(c, h)] = ("header",)
+                    stats["content_blocks"] = stats.get("content_blocks", 0) + 1
+                else:
+                    state[(c, h)] = ("idle",)
+                if name == "connection.close-ok":
+                    dead.add(c)
+        # at quiescence no block may be left open
+        for key, cur in state.items():
+            if key[0] not in dead and (cur[0] == "header" or (cur[0] == "body" and cur[1] != 0)):
+                viol.append({"step": i, "what": "content block on %d.%d left incomplete at quiescence (%s, after `%s`)" % (key[0], key[1], cur, st["op"])})
+                state[key] = ("idle",)
+    return viol
